@@ -35,9 +35,73 @@ package asp
 //@   opt nopanic=off
 //@   opt panics=allowed
 //@   opt permutation=multiset
+//@   callsite (scope).Assert frozen_lists_are_accepted [C18]: contains(arg_msg, "seq must be a list") && listlike(args[0]) ==> arg_condition
 //@ func reversed
 //@   property C16 C17
 //@   modifies heap
 //@   opt nopanic=off
 //@   opt panics=allowed
 //@   opt permutation=multiset
+//@   callsite (scope).Assert frozen_lists_are_accepted [C18]: contains(arg_msg, "irreversible type") && listlike(args[0]) ==> arg_condition
+
+// ---------------------------------------------------------------------------------------------
+// Frozen lists are lists (C18)
+//
+// listlike: an ordinary list or a frozen one (what subinclude and CONFIG hand out). Every builtin that
+// takes a list must take both: its "must be a list" assertion may not fail for a listlike argument.
+//@ spec listlike(x pyObject) bool = dyntype(x, pyList) || dyntype(x, pyFrozenList)
+//@ func filter
+//@   opt nopanic=off
+//@   opt panics=allowed
+//@   opt inline=off
+//@   opt precall=off
+//@   opt permutation=multiset
+//@   callsite (scope).Assert frozen_lists_are_accepted [C18]: contains(arg_msg, "seq must be a list") && listlike(args[1]) ==> arg_condition
+//@ func mapFunc
+//@   opt nopanic=off
+//@   opt panics=allowed
+//@   opt inline=off
+//@   opt precall=off
+//@   opt permutation=multiset
+//@   callsite (scope).Assert frozen_lists_are_accepted [C18]: contains(arg_msg, "seq must be a list") && listlike(args[1]) ==> arg_condition
+//@ func reduce
+//@   opt nopanic=off
+//@   opt panics=allowed
+//@   opt inline=off
+//@   opt precall=off
+//@   opt permutation=multiset
+//@   callsite (scope).Assert frozen_lists_are_accepted [C18]: contains(arg_msg, "seq must be a list") && listlike(args[1]) ==> arg_condition
+//@ func enumerate
+//@   opt nopanic=off
+//@   opt panics=allowed
+//@   opt inline=off
+//@   opt precall=off
+//@   opt permutation=multiset
+//@   callsite (scope).Assert frozen_lists_are_accepted [C18]: contains(arg_msg, "must be a list") && listlike(args[0]) ==> arg_condition
+//@ func anyFunc
+//@   opt nopanic=off
+//@   opt panics=allowed
+//@   opt inline=off
+//@   opt precall=off
+//@   opt permutation=multiset
+//@   callsite (scope).Assert frozen_lists_are_accepted [C18]: contains(arg_msg, "must be a list") && listlike(args[0]) ==> arg_condition
+//@ func allFunc
+//@   opt nopanic=off
+//@   opt panics=allowed
+//@   opt inline=off
+//@   opt precall=off
+//@   opt permutation=multiset
+//@   callsite (scope).Assert frozen_lists_are_accepted [C18]: contains(arg_msg, "must be a list") && listlike(args[0]) ==> arg_condition
+//@ func extreme
+//@   opt nopanic=off
+//@   opt panics=allowed
+//@   opt inline=off
+//@   opt precall=off
+//@   opt permutation=multiset
+//@   callsite (scope).Assert frozen_lists_are_accepted [C18]: contains(arg_msg, "seq must be a list") && listlike(args[0]) ==> arg_condition
+//@ func zip
+//@   opt nopanic=off
+//@   opt panics=allowed
+//@   opt inline=off
+//@   opt precall=off
+//@   callsite (scope).Assert frozen_lists_are_accepted [C18]: contains(arg_msg, "must be lists") && listlike(seq) ==> arg_condition
